@@ -1,6 +1,7 @@
 """C18 path canonicalisation: exhaustive enumeration + random strings against an independent spec, under ASan."""
-import os, re
-from . import core, build
+import os, re, hashlib, traceback
+from . import core, build, gentree
+from .gentree import Node
 
 PROP = "C18"
 
@@ -11,11 +12,90 @@ def run_shard(arg):
     return args, r
 
 
+def canon(p):
+    """The specification: None iff a component is '..'; otherwise the components without empty ones and '.'."""
+    comps = [c for c in p.split(b"/") if c not in (b"", b".")]
+    if any(c == b".." for c in comps):
+        return None
+    return b"/".join(comps)
+
+
+def spellings(p):
+    a, b = p.split(b"/", 1) if b"/" in p else (p, b"")
+    return [p, b"./" + p, b"/" + p, b"//" + p, p + b"/", p + b"/.", b"./" + p + b"/.", p.replace(b"/", b"//"), p.replace(b"/", b"/./"), b"././" + p, p + b"//",
+            b"/./" + p + b"/./", b"../" + p, p + b"/..", a + b"/../" + p, b"./..", b"..", p + b"/../" + (b or a), b"./" + p + b"/.."]
+
+
+def tool_level(arg):
+    """'All tools funnel command line paths, sort file names and unpack / sub directory paths through these functions': every spelling of a
+    path must give exactly the result of its canonical spelling, and a spelling with a '..' component must be refused."""
+    kind, path = arg
+    oc = core.Outcome("tool:%s" % kind, features=("tool", kind))
+    try:
+        B = build.build("asan")
+        t = {b"": Node("dir", 0o755), b"d": Node("dir", 0o755), b"d/x": Node("file", 0o644, data=[("words", 1, 3 * 4096 + 7)]), b"d/sub": Node("dir", 0o755),
+             b"d/sub/z z": Node("file", 0o644, data=[("words", 2, 5000)]), b"foo": Node("dir", 0o750), b"foo/bar": Node("dir", 0o755),
+             b"foo/bar/f": Node("file", 0o644, data=[("bytes", b"f")]), b".hidden": Node("dir", 0o755), b".hidden/h": Node("file", 0o644, data=[("bytes", b"h")])}
+        with core.Scratch("c18") as work:
+            root = os.path.join(work, "in")
+            gentree.materialise_dir(t, root)
+            img = os.path.join(work, "i.sqfs")
+            if core.run_tool([B["gensquashfs"], "-q", "-b", "4096", "-D", root, img]).rc != 0:
+                oc.inconclusive.append("cannot build the image")
+                return oc
+            tar = core.run_tool([B["sqfs2tar"], img]).out
+
+            def run(P):
+                h = lambda b: hashlib.sha256(b).hexdigest()
+                if kind in ("rdsquashfs-stat", "rdsquashfs-cat", "rdsquashfs-list"):
+                    r = core.run_tool([B["rdsquashfs"], {"rdsquashfs-stat": "-s", "rdsquashfs-cat": "-c", "rdsquashfs-list": "-l"}[kind], P, img])
+                    return r, (r.rc, h(r.out))
+                if kind in ("sqfs2tar-subdir", "sqfs2tar-root-becomes"):
+                    r = core.run_tool([B["sqfs2tar"], "-d" if kind == "sqfs2tar-subdir" else "-r", P, img])
+                    return r, (r.rc, h(r.out))
+                if kind == "tar2sqfs-root-becomes":
+                    o = os.path.join(work, "o.sqfs")
+                    r = core.run_tool([B["tar2sqfs"], "-q", "-f", "-r", P, o], stdin=tar)
+                    return r, (r.rc, core.sha_file(o) if r.rc == 0 else None)
+                sf, o = os.path.join(work, "s.txt"), os.path.join(work, "o.sqfs")
+                with open(sf, "wb") as f:
+                    f.write(b"-100 [dont_compress] " + (P if kind == "sort-file-plain" else b'"' + P + b'"') + b"\n")
+                r = core.run_tool([B["gensquashfs"], "-q", "-f", "-b", "4096", "-D", root, "-S", sf, o])
+                return r, (r.rc, core.sha_file(o) if r.rc == 0 else None)
+            r0, ref = run(path)
+            if r0.san or ref[0] != 0:
+                oc.inconclusive.append("canonical spelling fails: rc=%s %s" % (ref[0], r0.err[-200:]))
+                return oc
+            for P in spellings(path):
+                c = canon(P)
+                r, got = run(P)
+                oc.inc("tool_spellings")
+                if r.san:
+                    oc.violate(r.san, "%s with %r" % (kind, P), {"stderr.txt": r.err})
+                elif c is None:
+                    oc.inc("tool_refusals_expected")
+                    if got[0] == 0:
+                        oc.violate("canon:tool:%s:dotdot-accepted" % kind, "%r is accepted although a component is '..'" % P)
+                elif c == path and got != ref:
+                    oc.violate("canon:tool:%s:spelling-changes-result" % kind, "%r (canonical %r): rc=%s, result differs from the canonical spelling's" % (P, c, got[0]))
+                else:
+                    oc.inc("tool_equivalent")
+        oc.sample = {"tool": kind, "path": path.decode(), "spellings": len(spellings(path))}
+    except Exception:
+        oc.inconclusive.append("harness exception: %s" % traceback.format_exc()[-800:])
+    return oc
+
+
+TOOL_CASES = [("rdsquashfs-stat", b"d/x"), ("rdsquashfs-cat", b"d/sub/z z"), ("rdsquashfs-list", b"foo/bar"), ("sqfs2tar-subdir", b"foo/bar"), ("sqfs2tar-root-becomes", b"foo/bar"),
+              ("sqfs2tar-root-becomes", b".hidden"), ("tar2sqfs-root-becomes", b"foo/bar"), ("sort-file-plain", b"d/x"), ("sort-file-quoted", b"d/sub/z z"), ("sort-file-quoted", b"d/x")]
+
+
 def main(tier):
     rep = core.Report(PROP, tier, "exploration",
                       "every string over {'/', '.', 'a', 'b', 0xC3} up to the stated length (exhaustive) plus seeded random strings up to 4096 bytes "
                       "over the full byte range; each in an exactly sized heap buffer under ASan; distinct_nontrivial = strings that the function "
-                      "changes or refuses (counted by the harness)")
+                      "changes or refuses (counted by the harness); tool level: 19 spellings of a path given to rdsquashfs -s/-c/-l, sqfs2tar -d/-r, tar2sqfs -r and as plain / quoted "
+                      "sort file names must behave exactly like the canonical spelling, spellings with a '..' component must be refused")
     exe = build.build_harness("asan", "canon_enum", [os.path.join(core.VERIF, "harness", "canon_enum.c")])
     maxlen = 10 if tier == "quick" else 12
     nsh = 16
@@ -45,12 +125,14 @@ def main(tier):
             oc.inc("rewritten", int(m.group(4)))
         oc.sample = {"args": args, "stat": m.group(0).decode() if m else None}
         rep.add(oc)
+    for oc in core.pmap(tool_level, TOOL_CASES):
+        rep.add(oc)
     rep.evaluations = tot["strings"]
     rep.distinct_override = tot["fail"] + tot["changed"]
     rep.exhaustive = True
     rep.extra["enumerated_max_length"] = maxlen
     rep.extra["alphabet"] = ["/", ".", "a", "b", "0xC3"]
     rep.extra["random_strings"] = nrand
-    rep.required_nonzero = ["strings", "refused", "rewritten"]
+    rep.required_nonzero = ["strings", "refused", "rewritten", "tool_spellings", "tool_equivalent", "tool_refusals_expected"]
     rep.assumptions = ["the specification function in harness/canon_enum.c states the property (split on '/', drop empty and '.', fail iff '..')"]
     return rep.finish()
